@@ -160,8 +160,8 @@ def get_zero_crossings_array_indices(values, keep_adj_zeros=False, tol=0.0):
         no_adj_is = np.where(diff_is > 1)[0]
         zero_indices = np.take(zero_indices, no_adj_is)
     # if negative then sign has switched
-    sign_switch = values[1:] * values[:-1]
-    sign_switch = np.insert(sign_switch, 0, values[0])
+    sign_switch = np.sign(values[1:]) * np.sign(values[:-1])  # signs: the product of two tiny values underflows to zero
+    sign_switch = np.insert(sign_switch, 0, np.sign(values[0]))
     through_zero_indices = np.where(sign_switch < 0)[0]
     all_zc_indices = np.concatenate((zero_indices, through_zero_indices))
     all_zc_indices.sort()
@@ -335,7 +335,7 @@ def get_switched_peak_array_indices(values, tol=0.0):
     for i in range(1, len(peak_values)):
         sgn = np.sign(last)
         adj_val = peak_values[i] + tol * sgn  # if val is -ve then this will make value more +ve
-        if adj_val * last <= 0:  # only add index if sign changes (negative number)
+        if np.sign(adj_val) * np.sign(last) <= 0:  # only add index if sign changes (signs: a product of tiny values underflows)
             i_max_set = np.argmax(np.abs(peak_values_set))
             new_peak_indices.append(peak_indices_set[i_max_set])
 
